@@ -93,6 +93,14 @@ def chain(p, fn, expr, before_line=10 ** 9, depth=0):
 def analyse_chain(ctx, label, fn, ch, node, allow_known=False):
     trims_r = 0
     ok_all = True
+    # once a partition has isolated the name as the LAST field (index 2), any further cut goes into the name itself
+    iso = [i for i, (op, n) in enumerate(ch) if op == "cut_head" and isinstance(n, ast.Call) and isinstance(n.func, ast.Attribute) and n.func.attr == "partition"]
+    if iso:
+        for op, n in ch[iso[-1] + 1:]:
+            if op in ("cut_head", "cut_tail"):
+                ok_all = False
+                ctx.fail("C08.CARRY", n, f"{label}: `{src(n)[:40]}` cuts characters off the name after it was isolated as the last field (e.g. 'compat' quote stripping): "
+                         "the relative and absolute spellings of such a name denote different objects", construct=f"{label}:cut into name")
     for i, (op, n) in enumerate(ch):
         later_cut_head = any(o == "cut_head" for o, _ in ch[i + 1:])
         if op in OTHER_TF:
